@@ -49,6 +49,7 @@ type Outcome struct {
 	OpenAtReturn int                // queriers still open when Exec returned
 	Selects  []mstore.SelectRec
 	Fired    []string
+	LabelsModified []string // storage label sets the engine modified (ShareLabels cases)
 }
 
 func optimizers(s string) []logicalplan.Optimizer {
@@ -214,6 +215,19 @@ func RunEngineCtx(ctx context.Context, c *Case, st *mstore.Store, withQuery func
 	st.Reset()
 	st.Faults = c.Faults
 	st.HonorCtx = c.StoreCtx
+	if c.ShareLabels {
+		snap := st.Snapshot()
+		st.ShareLabels = true
+		defer func() {
+			st.ShareLabels = false
+			for i := range st.Series {
+				if !labels.Equal(st.Series[i].Labels, snap[i]) {
+					out.LabelsModified = append(out.LabelsModified, fmt.Sprintf("#%d %s -> %s", i, snap[i], st.Series[i].Labels))
+					st.Series[i].Labels = snap[i]
+				}
+			}
+		}()
+	}
 	var reg *prometheus.Registry
 	if CountPaths {
 		reg = prometheus.NewRegistry()
